@@ -15,7 +15,7 @@ META = dict(
 
 def tasks(tier):
     from vf.core import Task
-    return [Task('props.wire:run', name='C11/wire.c11_ll_per_bin', fname='c11_ll_per_bin', timeout=300), Task('props.wire:run', name='C11/wire.c11_ll_wiring', fname='c11_ll_wiring', timeout=300), Task('props.wire:run', name='C11/wire.c11_residuals', fname='c11_residuals', timeout=300), Task('props.wire:run', name='C11/lemma.optimal_scaling.n2', fname='c11_optimal_scaling_lemma', kwargs=dict(n=2), timeout=300), Task('props.wire:run', name='C11/lemma.optimal_scaling.n3', fname='c11_optimal_scaling_lemma', kwargs=dict(n=3), timeout=300)] + bounded_tasks('C11', tier)
+    return [Task('props.wire:run', name='C11/wire.c11_ll_per_bin', fname='c11_ll_per_bin', timeout=300), Task('props.wire:run', name='C11/wire.c11_ll_wiring', fname='c11_ll_wiring', timeout=300), Task('props.wire:run', name='C11/wire.c11_residuals', fname='c11_residuals', timeout=300), Task('props.wire:run', name='C11/wire.anscombe', fname='c11_anscombe', timeout=300), Task('props.wire:run', name='C11/lemma.optimal_scaling.n2', fname='c11_optimal_scaling_lemma', kwargs=dict(n=2), timeout=300), Task('props.wire:run', name='C11/lemma.optimal_scaling.n3', fname='c11_optimal_scaling_lemma', kwargs=dict(n=3), timeout=300)] + bounded_tasks('C11', tier)
 
 
 MANIFEST_ENTRY = dict(
